@@ -30,6 +30,28 @@ type BuiltinFnHover struct {
 func (*BuiltinFnHover) hover() {}
 
 func HoverOn(program parser.Program, position parser.Position) Hover {
+	hover := hoverOnExactly(program, position)
+	if hover != nil || position.Character == 0 {
+		return hover
+	}
+
+	// Nothing starts or continues at this position:
+	// the cursor may still be right after the last character of a hoverable token
+	previousChar := parser.Position{Line: position.Line, Character: position.Character - 1}
+	switch hover := hoverOnExactly(program, previousChar).(type) {
+	case *VariableHover:
+		if hover.Range.End == position {
+			return hover
+		}
+	case *BuiltinFnHover:
+		if hover.Range.End == position {
+			return hover
+		}
+	}
+	return nil
+}
+
+func hoverOnExactly(program parser.Program, position parser.Position) Hover {
 	for _, varDecl := range program.Vars {
 		hover := hoverOnVar(varDecl, position)
 		if hover != nil {
@@ -146,6 +168,11 @@ func hoverOnExpression(lit parser.ValueExpr, position parser.Position) Hover {
 
 	switch lit := lit.(type) {
 	case *parser.Variable:
+		// the position just past the last character belongs to whatever comes next
+		// (e.g. the second variable in "$a$b"), not to this variable
+		if lit.Range.End == position && lit.Range.Start != position {
+			return nil
+		}
 		return &VariableHover{
 			Range: lit.Range,
 			Node:  lit,
